@@ -34,6 +34,7 @@ def setup(prop, repo):
 def _child_run(run_seed, ops, opts):
     mod, S = _ctx["mod"], _ctx["S"]
     cfg = None
+    boot.install_clock(1.7e9 + (run_seed % 100000) * 86400.0)      # simulated time, from the run seed
     opts = dict(opts)
     want_ops = opts.pop("_want_ops", False)
     if ops is None:
@@ -52,6 +53,7 @@ def _child_run(run_seed, ops, opts):
 
 
 def _child_pristine(ops):
+    boot.install_clock(2.1e9)        # the reference world lives at another (simulated) time
     return _ctx["mod"].pristine_eval(_ctx["S"], ops)
 
 
